@@ -32,6 +32,10 @@ class CallMixin:
         if isinstance(f, ast.Attribute):
             if f.attr in STR_METHODS or f.attr in ('keys', 'values', 'items', 'get', 'rindex', 'index'):
                 return f.attr not in ('rindex', 'index')
+            # a method whose every declared contract is pure
+            cs = [c for t, c in self.reg.contracts.items() if t.endswith('.' + f.attr) or t.endswith(':' + f.attr)]
+            if cs and all(c.pure for c in cs):
+                return True
         return False
 
     # ------------------------------------------------------------------ dispatcher
@@ -554,6 +558,48 @@ class CallMixin:
             s.lset(recv.z, sort_of(elem), res.arr, res.n)
             yield SV(NONE, NONEV), s
 
+    def m_list_sort(self, recv, e, st):
+        """xs.sort(key=lambda x: ..., reverse=const): assumed builtin contract - the new content is a permutation of the old one and is
+        ordered by the key (no element's key is strictly smaller than the key of an element before it).  The key is the real lambda,
+        evaluated symbolically on arbitrary elements, so a changed key changes the obligation."""
+        kw = {k.arg: k.value for k in e.keywords}
+        if e.args or 'key' not in kw or not isinstance(kw['key'], ast.Lambda) or len(kw['key'].args.args) != 1:
+            _unsup('list.sort without a one-argument key lambda', e)
+        rev = False
+        if 'reverse' in kw:
+            if not isinstance(kw['reverse'], ast.Constant):
+                _unsup('sort(reverse=<non constant>)', e)
+            rev = bool(kw['reverse'].value)
+        lam = kw['key']
+        if not self.is_pure(lam.body):
+            _unsup('impure sort key', e)
+        self.check_write(st, recv.z, e, 'sort')
+        elem = recv.ty.args[0]
+        es = sort_of(elem)
+        old = st.list_seq(recv)
+        new = fresh('sorted', z3.ArraySort(I, es))
+        i, j = z3.Ints('i!so j!so')
+
+        def key(z):
+            s2 = st.copy()
+            s2.env[lam.args.args[0].arg] = SV(elem, z)
+            self.assume_typed(s2.env[lam.args.args[0].arg], s2, depth=0)
+            was = self.specmode
+            self.specmode += 1
+            try:
+                return self.ev1(lam.body, s2), s2
+            finally:
+                self.specmode = was
+        (ki, si), (kj, sj) = key(z3.Select(new, i)), key(z3.Select(new, j))
+        smaller = self.compare(ast.Gt() if rev else ast.Lt(), kj, ki, st, e)      # key[j] strictly before key[i] in the requested order
+        sides = si.pc[len(st.pc):] + sj.pc[len(st.pc):]       # facts about the values the key reads (contracts of properties it calls)
+        st.assume(z3.ForAll([i, j], z3.Implies(z3.And(0 <= i, i < j, j < old.n), z3.Implies(z3.And(*sides), z3.Not(smaller))) if sides else
+                            z3.Implies(z3.And(0 <= i, i < j, j < old.n), z3.Not(smaller))),
+                  z3.ForAll([i], z3.Implies(z3.And(0 <= i, i < old.n), z3.Exists([j], z3.And(0 <= j, j < old.n, z3.Select(new, i) == z3.Select(old.arr, j)))), patterns=[z3.Select(new, i)]),
+                  z3.ForAll([j], z3.Implies(z3.And(0 <= j, j < old.n), z3.Exists([i], z3.And(0 <= i, i < old.n, z3.Select(new, i) == z3.Select(old.arr, j)))), patterns=[z3.Select(old.arr, j)]))
+        st.lset(recv.z, es, new, old.n)
+        yield SV(NONE, NONEV), st
+
     def m_list_pop(self, recv, e, st):
         if e.args:
             _unsup('list.pop(i)', e)
@@ -935,6 +981,19 @@ class CallMixin:
                 # pure functions are functions: same arguments and heap give the same result
                 pass
             self.assume_typed(res, post, depth=0)
+        inlined = None
+        if c.pure and constructing is None and c.generator is None and not c.returns.is_ref:
+            # a pure function specified as `result == <expr>` IS that expression: no fresh constant (keeps quantified uses exact)
+            for en in c.ensures:
+                if isinstance(en, str):
+                    n = ast.parse(en.strip(), mode='eval').body
+                    if isinstance(n, ast.Compare) and len(n.ops) == 1 and isinstance(n.ops[0], ast.Eq) and isinstance(n.left, ast.Name) and n.left.id == 'result':
+                        v, sides = self.spec(ast.unparse(n.comparators[0]), post, env=env, old=pre)
+                        if not sides and not isinstance(v, SeqV):
+                            inlined = self.coerce(v, c.returns, post)
+                            break
+        if inlined is not None:
+            res = inlined
         for en in c.ensures:
             if isinstance(en, tuple):
                 en = 'implies(%s, %s)' % (en[2], en[0])      # a clause with a known finding is only promised outside the recorded inputs
